@@ -6,6 +6,9 @@ def dispatchEnum (line : String) : String :=
   | "enum" :: args => handleEnum args
   | "evc" :: args => handleEvc args
   | "evf" :: args => handleEvf args
+  | "block" :: args => handleBlock args
+  | "evbc" :: args => handleEvbc args
+  | "evbf" :: args => handleEvbf args
   | _ => "bad-op"
 
 partial def loopEnum (h : IO.FS.Stream) (out : IO.FS.Stream) : IO Unit := do
